@@ -383,9 +383,18 @@ namespace nrf52_details
 
     bluetoe::details::uint128_t security_tool_box::create_passkey()
     {
-        const bluetoe::details::uint128_t result{{
-            random_number8(), random_number8(), random_number8()
-        }};
+        // 20 random bits, drawn again if they are not within [000000, 999999], give
+        // a uniformly distributed six digit value
+        static constexpr std::uint32_t max_passkey = 999999;
+        std::uint32_t passkey = 0;
+
+        do
+        {
+            passkey = random_number32() & 0xfffff;
+        } while ( passkey > max_passkey );
+
+        bluetoe::details::uint128_t result{{ 0 }};
+        bluetoe::details::write_32bit( result.data(), passkey );
 
         return result;
     }
